@@ -81,6 +81,9 @@ type Case struct {
 	Multi   []string `json:"multi"`
 	Gated   bool     `json:"gated"`
 	Slow    bool     `json:"slow"`
+	// >0: the SOURCE machine's HandlerTimeout in ms (held-up family: a slow
+	// target must not get the source transition canceled)
+	SrcTimeoutMs int `json:"srcTimeoutMs,omitempty"`
 	Seed    int64    `json:"seed"`
 	Script  []Cmd    `json:"script"`
 }
@@ -616,7 +619,11 @@ func (r *Runner) setup() error {
 			sschema["Other"] = am.State{}
 		}
 	}
-	r.src = am.New(ctx, sschema, opts("src-"+c.Label))
+	sopts := opts("src-" + c.Label)
+	if c.SrcTimeoutMs > 0 {
+		sopts.HandlerTimeout = time.Duration(c.SrcTimeoutMs) * time.Millisecond
+	}
+	r.src = am.New(ctx, sschema, sopts)
 
 	// target: plain states, no relations -> it never vetoes
 	tschema := am.Schema{ExtState: {}}
